@@ -40,6 +40,7 @@ pub struct Outcome {
     pub passes: Vec<(usize, usize)>, // (epoch after the round, nodes destructed in that round)
     pub rounds: usize,
     pub destructed: usize,
+    pub advances: usize, // global-epoch advances between dropping the head and the last destructor
 }
 
 pub fn destroy_chain(n: usize, k: usize, residue: usize, max_rounds: usize) -> (Outcome, usize, usize, Option<Rc<Node>>) {
@@ -56,6 +57,8 @@ pub fn destroy_chain(n: usize, k: usize, residue: usize, max_rounds: usize) -> (
     round();
     DROPS.store(0, SeqCst);
     let sth = epoch() % 16;
+    let g_drop = epoch();
+    let mut g_last = g_drop;
     drop(head);
     let expected = if k == 0 { n } else { k - 1 };
     let mut passes = vec![];
@@ -68,9 +71,10 @@ pub fn destroy_chain(n: usize, k: usize, residue: usize, max_rounds: usize) -> (
         if now > last {
             passes.push((epoch(), now - last));
             last = now;
+            g_last = epoch();
         }
     }
-    (Outcome { passes, rounds, destructed: last }, stl, sth, extra)
+    (Outcome { passes, rounds, destructed: last, advances: g_last - g_drop }, stl, sth, extra)
 }
 
 pub fn run(out_path: &str, seed: u64, thorough: bool) -> (u64, u64, u64) {
@@ -89,8 +93,13 @@ pub fn run(out_path: &str, seed: u64, thorough: bool) -> (u64, u64, u64) {
         for &res in &residues {
             let ks: Vec<usize> = if n >= 3 && n <= 5000 { vec![0, 1 + rng.below(n as u64) as usize] } else { vec![0] };
             for &k in &ks {
-                let bound = 3 * (n / cap + 1) + 9;
-                let (o, stl, sth, extra) = destroy_chain(n, k, res, bound + 20);
+                // a pass runs every grace period (3 advances); in every cycle of 16 epochs at least one pass
+                // reclaims a full segment of DEPTH_CAP nodes (the others may stall on the 4-bit stamp window)
+                let bound = 16 * (n / cap) + 24;
+                let (o, stl, sth, extra) = destroy_chain(n, k, res, 4 * bound + 40);
+                if std::env::var("CHAIN_STATS").is_ok() {
+                    eprintln!("n={} k={} res={} advances={} rounds={} passes={}", n, k, res, o.advances, o.rounds, o.passes.len());
+                }
                 let expected = if k == 0 { n } else { k - 1 };
                 let mut line = format!("@chain {} {} {} {}", n, k, stl, sth);
                 for (g, _) in &o.passes {
@@ -100,7 +109,9 @@ pub fn run(out_path: &str, seed: u64, thorough: bool) -> (u64, u64, u64) {
                 for (_, p) in &o.passes {
                     line.push_str(&format!(" {}", p));
                 }
-                out.line(&line);
+                if n <= 5000 {
+                    out.line(&line);
+                }
                 props += 3;
                 if o.destructed != expected {
                     fails += 1;
@@ -109,11 +120,11 @@ pub fn run(out_path: &str, seed: u64, thorough: bool) -> (u64, u64, u64) {
                         n, k, o.destructed, o.rounds, expected
                     ));
                 }
-                if o.rounds > bound {
+                if o.advances > bound {
                     fails += 1;
                     out.line(&format!(
-                        "PROPFAIL C06 chain of {}: {} collection rounds needed, more than 3*(n/1024+1)+9 = {}",
-                        n, o.rounds, bound
+                        "PROPFAIL C06 chain of {}: {} epoch advances between dropping the head and the last destructor, more than 16*(n/1024)+24 = {}",
+                        n, o.advances, bound
                     ));
                 }
                 // a node that is still referenced survives, and so does everything behind it
@@ -128,7 +139,7 @@ pub fn run(out_path: &str, seed: u64, thorough: bool) -> (u64, u64, u64) {
                 drop(extra);
                 // everything is reclaimed in the end (C04 / C07: no node lost by the depth cap)
                 let mut r = 0;
-                while DROPS.load(SeqCst) < n && r < bound + 40 {
+                while DROPS.load(SeqCst) < n && r < 4 * bound + 40 {
                     round();
                     r += 1;
                 }
@@ -150,7 +161,7 @@ pub fn stack_probe(n: usize, stack: usize) -> bool {
     let h = std::thread::Builder::new()
         .stack_size(stack)
         .spawn(move || {
-            let (o, _, _, _) = destroy_chain(n, 0, 0, 3 * (n / 1024 + 1) + 40);
+            let (o, _, _, _) = destroy_chain(n, 0, 0, 40 * (n / 1024 + 1) + 80);
             o.destructed == n
         })
         .unwrap();
